@@ -33,6 +33,7 @@ type ev struct {
 	FC       [][]int  `json:"fc"`
 	Exp      [][]int  `json:"exp"`
 	Notif    int      `json:"notif"`
+	Lis      map[string]int `json:"lis"`
 	StateOk  bool     `json:"stateOk"`
 	S        string   `json:"s,omitempty"`
 	From     int      `json:"from"`
@@ -45,7 +46,7 @@ type ev struct {
 }
 
 func emptyEv(op string) ev {
-	return ev{Op: op, Utxo: []int{}, FC: [][]int{}, Exp: [][]int{}, Rus: []int{}, Aus: []int{}}
+	return ev{Op: op, Utxo: []int{}, FC: [][]int{}, Exp: [][]int{}, Rus: []int{}, Aus: []int{}, Lis: map[string]int{}}
 }
 
 // shadow is the ledger a subscriber folds from the update stream (C04): unspent elements with
@@ -256,6 +257,7 @@ func (h *history) emitProjection(op, ret string) Projection {
 	e.Ret, e.Mem, e.Best, e.Blk, e.Sta = ret, p.Mem, p.Best, p.Blk, p.Sta
 	e.Utxo, e.FC, e.Exp = p.Led.Utxo, p.Led.FC, p.Led.Exp
 	e.Notif = h.notif + p.Notif
+	e.Lis = p.Lis
 	e.StateOk = p.StateOK || p.OrderDiverged || h.t.Node(max(p.Mem, 1)).L == nil
 	h.tw.Emit(e)
 	return p
@@ -640,6 +642,21 @@ func TestDriver(t *testing.T) {
 			}
 			h.submit(batch, midP)
 			i += k
+			if (mode == "subs" || mode == "core") && rng.Float64() < 0.35 {
+				// callbacks come and go between submissions (OnReorg / OnPoolChange and their cancel
+				// functions); every one registered at the time of a reorg must be called once
+				name := LisNames[rng.Intn(len(LisNames))]
+				le := emptyEv("Sub")
+				le.S = name
+				if h.n.LisCounts()[name] >= 0 {
+					le.Op = "Unsub"
+					h.n.Unsub(name)
+				} else {
+					h.n.Sub(name)
+				}
+				h.tw.Emit(le)
+				res.Count("listener_changes", 1)
+			}
 			switch {
 			case (mode == "subs" || mode == "core") && rng.Float64() < 0.7:
 				sn := []string{"s1", "s2", "s3"}[rng.Intn(3)]
